@@ -11,7 +11,7 @@ import json
 import random
 from typing import Any, Dict, Iterable, List, Optional, Tuple
 
-from harness.core import Case, Check, Finding, call, canon, short
+from harness.core import Case, Check, Finding, OUTSIDE, call, canon, short
 
 NS13 = 'http://schema.primaresearch.org/PAGE/gts/pagecontent/2013-07-15'
 NS19 = 'http://schema.primaresearch.org/PAGE/gts/pagecontent/2019-07-15'
@@ -268,6 +268,89 @@ def apply_mutation(tree, m):
     elif m['op'] == 'set_text':
         n['x'] = m['value']
     return t
+
+
+# ---------------------------------------------------------------------------------------
+# is a (mutated) tree still a document of the quantifiers?  C01 speaks of "any conformant PageXML document … made of
+# Page / ReadingOrder / TextRegion / TextLine / Word / TextEquiv / Coords / Baseline … with every optional attribute or
+# child independently present or absent", C05 of "regions with distinct ids and … reading-order groups listing each
+# region at most once", C08 of TableRegions whose cells have row and column indices.  A mutated tree that breaks one of
+# the rules below is outside all three quantifiers: the model still mirrors the code on it, but nothing is claimed
+# (tag core.OUTSIDE).  The list is deliberately SHORT: only what the PAGE schema makes mandatory / typed and the
+# generators of conformant documents never violate (checked on every run: a generated 'doc' case that fails it would
+# itself be tagged).  Anything not listed counts as conformant and stays compared exactly.
+# ---------------------------------------------------------------------------------------
+
+import re as _re
+
+_POINTS_RE = _re.compile(r'-?[0-9]+,-?[0-9]+( -?[0-9]+,-?[0-9]+)*')
+_MANDATORY_ATTRS = {'Page': ['imageWidth', 'imageHeight'], 'Coords': ['points'], 'Baseline': ['points'],
+                    'RegionRefIndexed': ['index', 'regionRef'], 'RegionRef': ['regionRef'], 'OrderedGroup': ['id'],
+                    'UnorderedGroup': ['id'], 'TableCell': ['row', 'col']}
+_EXACTLY_ONE = {'PcGts': ['Page'], 'TextLine': ['Coords'], 'Word': ['Coords'], 'TableCell': ['Coords'], 'TextEquiv': ['Unicode']}
+_AT_MOST_ONE = {'PcGts': ['Metadata'], 'Page': ['ReadingOrder'], 'TextRegion': ['Coords'], 'TableRegion': ['Coords'],
+                'TextLine': ['Baseline'], 'TextEquiv': ['PlainText'], 'ReadingOrder': ['OrderedGroup', 'UnorderedGroup']}
+_INT_ATTRS = {'imageWidth', 'imageHeight', 'xheight', 'index', 'row', 'col', 'rowSpan', 'cellSpan'}
+_FLOAT_ATTRS = {'orientation', 'conf'}
+_WITH_ID = ('TextRegion', 'TextLine', 'Word', 'TableRegion', 'TableCell')
+
+
+def nonconformant(tree) -> Optional[str]:
+    """None, or the first rule of the PAGE structure the tree breaks"""
+    ids: List[str] = []
+
+    def ok_num(v, conv):
+        try:
+            conv(v)
+            return True
+        except ValueError:
+            return False
+
+    def go(n) -> Optional[str]:
+        t, attrs = n['t'], dict(map(tuple, n['a']))
+        for k in _MANDATORY_ATTRS.get(t, []):
+            if k not in attrs:
+                return f'{t} without @{k}'
+        for k, v in attrs.items():
+            if k == 'points' and not _POINTS_RE.fullmatch(v):
+                return f'{t}/@points {v!r} is not a list of integer pairs'
+            if k in _INT_ATTRS and not ok_num(v, int):
+                return f'{t}/@{k} {v!r} is not an integer'
+            if k in _FLOAT_ATTRS and v != '' and not ok_num(v, float):
+                return f'{t}/@{k} {v!r} is not a number'
+        if t in _WITH_ID and 'id' in attrs:
+            if attrs['id'] in ids:
+                return f'id {attrs["id"]!r} occurs twice'
+            ids.append(attrs['id'])
+        kids = [k['t'] for k in n['c']]
+        for k in _EXACTLY_ONE.get(t, []):
+            if kids.count(k) != 1:
+                return f'{t} with {kids.count(k)} {k} children'
+        for k in _AT_MOST_ONE.get(t, []):
+            if kids.count(k) > 1:
+                return f'{t} with {kids.count(k)} {k} children'
+        if t in ('OrderedGroup', 'UnorderedGroup'):
+            refs = [dict(map(tuple, k['a'])).get('regionRef') for k in n['c']]
+            if len(set(refs)) != len(refs):
+                return f'{t} lists a region twice'
+        for k in n['c']:
+            r = go(k)
+            if r:
+                return r
+        return None
+    if tree['t'] != 'PcGts':
+        return 'root is not PcGts'
+    return go(tree)
+
+
+def mark_nonconformant(cases: List[Case]) -> List[Case]:
+    """tag the mutated documents that are no longer documents of the quantifier (see above)"""
+    for c in cases:
+        if c.kind == 'mut' and OUTSIDE not in c.tags:
+            why = nonconformant(apply_mutation(r_doc(c.input['src']), c.input['mut']))
+            if why:
+                c.tags += [OUTSIDE, 'nonconformant']
+    return cases
 
 
 # ---------------------------------------------------------------------------------------
@@ -533,6 +616,34 @@ def norm_answer(a):
     if 'ok' in a:
         return {'ok': norm_scan(a['ok'])}
     return a
+
+
+def scan_diff(real, model) -> Optional[str]:
+    """the real parse ({'ok': dump_scan} | {'err': class}) against a model answer of the same shape, compared at the
+    level the statements of C01 / C05 / C08 observe:
+      * raising: the statements only speak of raising-or-not ("No conformant document makes the parser raise"; C05 / C08
+        name no exception at all), so two rejections agree whatever their classes; a rejection against an acceptance
+        differs as before;
+      * scan.metadata: C01 lists what must be there ("the scan's id and size come from …", "the Metadata fields are
+        carried over") but not that the dictionary holds nothing else: every key the model has must be present with
+        the same value, keys only the code has are ignored;
+      * scan.reading_order: C05 only says when the order is used and when "document order is kept"; whether an unused
+        order is kept as None or as an empty dict is observable through truthiness only (every reader tests
+        `if reading_order`): falsy values are one value.  "Entries that reference unknown ids are ignored": whether
+        such an entry stays in the dict is not stated either, so only the entries of delivered regions are compared
+        (index and id, in dict order).
+    Everything else (ids, texts, points, confidences, orders, tables, the lines and regions delivered) exactly."""
+    if 'err' in real and 'err' in model:
+        return None
+    if 'ok' in real and 'ok' in model:
+        r, m = dict(real['ok']), dict(model['ok'])
+        keys = {kv[0] for kv in m.get('metadata') or []}
+        r['metadata'] = [kv for kv in r.get('metadata') or [] if kv[0] in keys]
+        for x in (r, m):
+            known = {reg.get('id') for reg in x.get('regions') or []}
+            x['reading_order'] = [e for e in x.get('reading_order') or [] if e[1] in known] or None
+        real, model = {'ok': r}, {'ok': m}
+    return first_diff(real, model, 'scan')
 
 
 def first_diff(a, b, path='') -> Optional[str]:
@@ -857,7 +968,7 @@ class DocCheck(Check):
         real = impl_out['real']
         real_cmp = {'ok': real['ok']['scan']} if 'ok' in real else real
         m = norm_answer(model_out[1])
-        d = first_diff(real_cmp, canon(m), 'scan')
+        d = scan_diff(real_cmp, canon(m))
         if d:
             return 'parse_pagexml_file vs parseScan(toDict(tree)): ' + d
         if case.kind == 'doc':
@@ -866,11 +977,11 @@ class DocCheck(Check):
             if d:
                 return 'xmltodict.parse vs toDict(render src): ' + d
             p = norm_answer(a['parsed'])
-            d = first_diff(real_cmp, canon(p), 'scan')
+            d = scan_diff(real_cmp, canon(p))
             if d:
                 return 'parse_pagexml_file vs parseScan(toDict(render src)): ' + d
             if 'expect-mirror' in case.tags:
-                d = first_diff(real_cmp, canon({'ok': norm_scan(a['mirror'])}), 'scan')
+                d = scan_diff(real_cmp, canon({'ok': norm_scan(a['mirror'])}))
                 if d:
                     return 'parse_pagexml_file vs mirror(src): ' + d
         return None
